@@ -7,6 +7,7 @@ import (
 	"go/types"
 	"sort"
 	"strings"
+	"sync"
 
 	"golang.org/x/tools/go/ssa"
 )
@@ -48,6 +49,7 @@ type quant struct {
 	guard  string // outer guard (no parameter)
 	fn     string // name of a (Int)->Bool definition
 	lo, hi string // optional bounds ("" = unbounded)
+	pol    int    // polarity of a user quantifier inside the formula it occurs in (+1 positive)
 }
 
 // X is one symbolic execution context (one script).
@@ -82,6 +84,9 @@ type X struct {
 	inline    bool // export mode: no definitions
 	unfold    map[string]bool
 	globObjs  map[*ssa.Global]string
+	wsMemo    map[*ssa.Function]*writeSet
+	wsBusy    map[*ssa.Function]bool
+	polarity  int
 	sideConds []sideCond
 }
 
@@ -119,7 +124,7 @@ func (x *X) prelude() {
 	sc.Declare("gs.len", []string{SStr}, SInt)
 	sc.Declare("gs.at", []string{SStr, SInt}, SInt)
 	sc.add("(define-fun gs.empty () Real 0.0)")
-	sc.Assert("(forall ((s Real)) (! (>= (gs.len s) 0) :pattern ((gs.len s))))")
+	sc.Assert("(forall ((s Real)) (! (and (>= (gs.len s) 0) (<= (gs.len s) 4611686018427387904)) :pattern ((gs.len s))))")
 	sc.Assert("(forall ((s Real)) (! (= (= (gs.len s) 0) (= s gs.empty)) :pattern ((gs.len s))))")
 	sc.Assert("(forall ((s Real) (i Int)) (! (and (<= 0 (gs.at s i)) (<= (gs.at s i) 255)) :pattern ((gs.at s i))))")
 	sc.Declare("ALLOC0", nil, arrSort(SBool))
@@ -199,9 +204,16 @@ func (x *X) strLit(s string) string {
 
 // emitStrLits declares the literal strings used, with their order, lengths
 // and bytes. Called when a query is assembled (literals may be discovered late).
-func (x *X) strLitDecls() string {
+func (x *X) strLitDecls() string { return x.strLitDeclsFor("") }
+
+// strLitDeclsFor restricts the facts to the literals declared in prefix
+// (all of them when prefix is empty).
+func (x *X) strLitDeclsFor(prefix string) string {
 	var lits []string
-	for s := range x.strLits {
+	for s, n := range x.strLits {
+		if prefix != "" && !strings.Contains(prefix, "(declare-fun "+n+" ") {
+			continue
+		}
 		lits = append(lits, s)
 	}
 	sort.Strings(lits)
@@ -273,7 +285,7 @@ func (x *X) freshVal(t types.Type, hint string) Val {
 		return S{v, SInt}
 	case kString:
 		v := x.fresh(hint, SStr)
-		x.assume("(>= " + v + " 0.0)")
+		x.assumeStr(v)
 		return S{v, SStr}
 	case kFloat:
 		return S{x.fresh(hint, SReal), SReal}
@@ -326,6 +338,10 @@ func (x *X) freshVal(t types.Type, hint string) Val {
 func (x *X) assumeIntRange(v string, t types.Type) {
 	lo, hi := intBounds(t)
 	x.assume(fmt.Sprintf("(and (<= %s %s) (<= %s %s))", lo, v, v, hi))
+}
+
+func (x *X) assumeStr(v string) {
+	x.assume(fmt.Sprintf("(and (>= %s 0.0) (<= 0 (gs.len %s)) (<= (gs.len %s) 4611686018427387904))", v, v, v))
 }
 
 func (x *X) assumeRef(v string) {
@@ -469,7 +485,28 @@ func (x *X) mergeVals(c string, a, b Val) Val {
 		if ok && bv.Fn == nil {
 			return av
 		}
+		if ok {
+			return CloSet{Alts: []cloAlt{{c, av}, {"true", bv}}}
+		}
+		if bs, isSet := b.(CloSet); isSet {
+			return CloSet{Alts: append([]cloAlt{{c, av}}, bs.Alts...)}
+		}
 		unsup("merge of different function values")
+	case CloSet:
+		var rest []cloAlt
+		switch bv := b.(type) {
+		case Clo:
+			rest = []cloAlt{{"true", bv}}
+		case CloSet:
+			rest = bv.Alts
+		default:
+			unsup("merge of function values")
+		}
+		var out []cloAlt
+		for _, a := range av.Alts {
+			out = append(out, cloAlt{and(c, a.Cond), a.C})
+		}
+		return CloSet{Alts: append(out, rest...)}
 	case nil:
 		return b
 	}
@@ -627,6 +664,20 @@ func (x *X) interiorArr(l loc) string {
 	if l.arrayObj {
 		return l.idx[0]
 	}
+	if len(l.idx) == 0 {
+		// array inside a package-level variable: a fixed array identity
+		name := "GA$" + sanitize(l.key)
+		if _, ok := x.sc.declared[name]; !ok {
+			x.sc.Declare(name, nil, SInt)
+			x.sc.Assert(fmt.Sprintf("(< %s (- 1000000))", name))
+			for other := range x.sc.declared {
+				if strings.HasPrefix(other, "GA$") && other != name {
+					x.sc.Assert(fmt.Sprintf("(not (= %s %s))", name, other))
+				}
+			}
+		}
+		return name
+	}
 	if len(l.idx) != 1 {
 		unsup("array nested in slice element or global")
 	}
@@ -653,7 +704,7 @@ func (x *X) loadAt(l loc, t types.Type) Val {
 		return S{x.readLeaf(l, "", x.leafSort(t)), x.leafSort(t)}
 	case kString:
 		v := x.readLeaf(l, "", SStr)
-		x.assume("(>= " + v + " 0.0)")
+		x.assumeStr(v)
 		return S{v, SStr}
 	case kInt:
 		v := x.readLeaf(l, "", SInt)
@@ -777,7 +828,65 @@ func (x *X) load(p Ptr) Val {
 		return v
 	}
 	l, t := x.locOf(p)
-	return x.loadAt(l, t)
+	v := x.loadAt(l, t)
+	if p.Kind == pGlobal && len(p.Path) == 0 {
+		if sl, isSlice := v.(Slice); isSlice {
+			if n, ok := x.globalSliceLen(p.Glob); ok {
+				x.assume(fmt.Sprintf("(and (= %s %d) (= %s %d) (= %s 0) (not (= %s 0)))", sl.Len, n, sl.Cap, n, sl.Off, sl.Arr))
+				x.externs["package-level slice "+p.Glob.Name()+" keeps the length of its literal (assigned once, in init: checked)"] = true
+			}
+		}
+	}
+	return v
+}
+
+var globalSliceLenCache = map[*ssa.Global]int64{}
+
+// globalSliceLen: the variable is assigned exactly once, in the package
+// initialiser, from a slice literal; its length is that of the literal.
+func (x *X) globalSliceLen(g *ssa.Global) (int64, bool) {
+	cacheMu.Lock()
+	defer cacheMu.Unlock()
+	if n, ok := globalSliceLenCache[g]; ok {
+		return n, n >= 0
+	}
+	globalSliceLenCache[g] = -1
+	initFn := g.Pkg.Func("init")
+	stores := 0
+	var n int64 = -1
+	for _, fn := range x.prog.Funcs {
+		if fn.Pkg != g.Pkg || fn.Blocks == nil {
+			continue
+		}
+		for _, b := range fn.Blocks {
+			for _, in := range b.Instrs {
+				switch in := in.(type) {
+				case *ssa.Store:
+					if in.Addr == g {
+						stores++
+						if sl, ok := in.Val.(*ssa.Slice); ok && fn == initFn && sl.Low == nil && sl.High == nil {
+							if al, ok := sl.X.(*ssa.Alloc); ok {
+								if at, ok := al.Type().(*types.Pointer).Elem().Underlying().(*types.Array); ok {
+									n = at.Len()
+								}
+							}
+						}
+					}
+				case ssa.CallInstruction:
+					for _, a := range in.Common().Args {
+						if a == g {
+							stores += 2 // address escapes
+						}
+					}
+				}
+			}
+		}
+	}
+	if stores != 1 || n < 0 {
+		return 0, false
+	}
+	globalSliceLenCache[g] = n
+	return n, true
 }
 
 func (x *X) store(p Ptr, v Val) {
@@ -848,6 +957,7 @@ type frame struct {
 	defers  []*ssa.Defer
 	inLoop  *loopInfo
 	exitsTo []edge
+	iters   map[*ssa.Range]Iter
 }
 
 type edge struct {
@@ -1034,6 +1144,11 @@ func (x *X) execFunc(fn *ssa.Function, args []Val, free []Val) Val {
 	if len(x.stack) > 12 {
 		unsup("call depth")
 	}
+	if x.mode == modeVC && len(x.stack) >= 1 {
+		// obligations of a callee are decided when the callee itself is verified
+		x.noOblig++
+		defer func() { x.noOblig-- }()
+	}
 	x.stack = append(x.stack, fn)
 	defer func() { x.stack = x.stack[:len(x.stack)-1] }()
 
@@ -1215,10 +1330,13 @@ func (x *X) globalObj(g *ssa.Global, root types.Type) Ptr {
 }
 
 var neverWrittenCache = map[*ssa.Global]bool{}
+var cacheMu sync.Mutex
 
 // globalNeverWritten: no instruction in the package stores to g, to a field
 // address derived from g, or passes g's address to a call / stores it.
 func (x *X) globalNeverWritten(g *ssa.Global) bool {
+	cacheMu.Lock()
+	defer cacheMu.Unlock()
 	if v, ok := neverWrittenCache[g]; ok {
 		return v
 	}
